@@ -106,9 +106,23 @@ func (s *QueryPlanStep) setQuery() *QueryPlanStep {
 	return s
 }
 
-func getVariablesList(s ast.SelectionSet) []string {
+func getDirectivesVariablesList(directives ast.DirectiveList) []string {
 	var args []string
+	for _, d := range directives {
+		for _, a := range d.Arguments {
+			if a.Value != nil && a.Value.Kind == ast.Variable {
+				args = append(args, a.Value.Raw)
+			}
+		}
+	}
+	return args
+}
+
+func getVariablesList(s ast.SelectionSet) []string {
+	// directives of fragments and fields use variables too
+	args := getDirectivesVariablesList(common.SelectionSetToFragmentDirectives(s))
 	for _, f := range common.SelectionSetToFields(s, nil) {
+		args = append(args, getDirectivesVariablesList(f.Directives)...)
 		for _, a := range f.Arguments {
 			if len(a.Value.Children) > 0 {
 				args = append(args, getArgumentListChildrenVariablesList(a.Value.Children)...)
